@@ -479,17 +479,19 @@ class Visitor(ast.NodeVisitor):
                 )
             )
 
-        result = None  # type: Optional[Any]
-
         if node.id in self._name_to_value:
             result = self._name_to_value[node.id]
 
-        if result is None and hasattr(builtins, node.id):
+            if result is PLACEHOLDER:
+                # The variable refers to a name local of the lambda (e.g., a target in the generator expression).
+                return PLACEHOLDER
+        elif hasattr(builtins, node.id):
+            # Look up the built-ins only if the name has not been defined in the variable look-up.
+            # Otherwise, a variable set to None would be confused with the built-in of the same name.
             result = getattr(builtins, node.id)
-
-        if result is None and node.id != "None":
+        else:
             # The variable refers to a name local of the lambda (e.g., a target in the generator expression).
-            # Since we evaluate generator expressions with runtime compilation, None is returned here as a placeholder.
+            # Since we evaluate generator expressions with runtime compilation, we return a placeholder here.
             return PLACEHOLDER
 
         self.recomputed_values[node] = result
